@@ -37,6 +37,32 @@
 (* rejected).  Behaviours of group dirk START on a fresh instance (StartInits): what only a       *)
 (* history reaches is reached by a history.                                                        *)
 (*                                                                                              *)
+(* Part (c): ALIASING.  Some structures are shared between jobs and handlers of DIFFERENT            *)
+(* components without any lock, which is right only because nobody writes them once they have been   *)
+(* handed on.  Group syncduty models the sync committee duty pipeline as production wires it (the     *)
+(* controller's scheduling path, the messenger, the aggregator, the head event handler) with the      *)
+(* OBJECTS the controller builds and who holds a reference to each: ONE map of committee positions    *)
+(* and ONE map of accounts per sync committee period, handed to the duty of every slot; the messenger *)
+(* keeps the duty's map BY REFERENCE in the slot's data record, over which the head event handler of   *)
+(* the next slot ranges; the aggregator's duty holds the messenger duty's accounts map and selection   *)
+(* proofs.  Touch(u) names the objects a unit (a call between two of its critical sections, a job a    *)
+(* head event started, a scheduling goroutine) reads or writes; invariant SharedImmutable: two units    *)
+(* that are under way at the same time never touch the same object when one of them writes it - the     *)
+(* rule "shared => never written after publication".  Share = "period" is the aliasing of the code,     *)
+(* Share = "slot" a design in which every duty has a copy of its own (what a driver that builds a        *)
+(* fresh map per duty looks at).  AliasWrite names a CLASS of change - a component that starts to write  *)
+(* an object it was handed, and only for an edge input of the widened environment (a committee member    *)
+(* without an account, a head block that misses members): TLC must reject each class under the code's    *)
+(* aliasing (MC_Concurrency_alias_*.cfg), and must ACCEPT the first one both with a copy per slot and    *)
+(* with the narrow environment in which every member has an account (the two reasons why a check can     *)
+(* be blind to it).  The environment of group syncduty is wide (WideEnv): which members have an account   *)
+(* in the by-index lookup (all / one missing / only one / none), what the head-root request, the root     *)
+(* signer (ok / a zero signature / error), the selection signer (aggregators / none / error), the         *)
+(* contribution request and the fetch of the head block (all / some bits set / another parent / error)    *)
+(* answer - per job.  Jobs are not atomic: a call of this group passes several linearization points       *)
+(* (phases: take the job; record the data of the slot; schedule the next job), a head event starts the    *)
+(* message job of its slot on a goroutine of its own (silent steps).                                      *)
+(*                                                                                              *)
 (* The groups are derived from the goroutine families that main.go wires up (scheduler jobs,      *)
 (* event handlers of the beacon nodes' streams, periodic refreshers, start-up goroutines and the   *)
 (* REST daemon that serves the beacon nodes' MEV-boost requests) x the shared fields of every      *)
@@ -54,13 +80,22 @@ CONSTANTS Groups,     \* the groups explored by this configuration (subset of Al
           Pinned,     \* render the lock acquisitions as on the pinned tree
           InPlace,    \* render the registration round as altering the published controlled-validators map in place
           Reuse,      \* render the dirk refresh as building its key list in the backing array of the published list
+          WideEnv,    \* group syncduty: the environment presents its whole alphabet (FALSE: every member has an account,
+                      \* every request is answered - the alphabet of the first versions of this specification)
+          Share,      \* group syncduty: "period" = one map of committee positions per period, aliased by every duty and
+                      \* every data record (the code); "slot" = a copy per duty (control design)
+          AliasWrite, \* group syncduty: the class of change rendered - who writes an object it was handed: "none" (the code),
+                      \* "message-indices", "prepare-indices", "verify-indices", "schedule-accounts"
           MaxPar      \* maximal number of overlapping operations in a schedule (3)
 
 AllGroups == {"wallet", "blockrelay", "messenger", "controller", "cache", "validators", "attester",
               \* the REST (MEV-boost) surface of the block relay and two more pairs of the re-derived table
               "registrar", "bids", "restcfg", "exechead", "syncagg", "bestvotes", "bidstrategy",
               \* the dirk account manager (pair 2 of the table): second and later refreshes of one instance
-              "dirk"}
+              "dirk",
+              \* the sync committee duty pipeline through the controller's scheduling path: structures ALIASED between
+              \* the jobs of neighbouring slots, the data records and the head event handler
+              "syncduty"}
 
 -----------------------------------------------------------------------------
 (* ---------------------------- part (a): sequential meaning -------------------------------- *)
@@ -70,6 +105,121 @@ Fail == -1              \* the configuration source fails
 
 OldSlot == 1010  MidSlot == 1040  NewSlot == 1100      \* sync committee slot records that are tracked
 Keep == 32                                        \* minSlotDataRecordsToKeep
+
+-----------------------------------------------------------------------------
+(* ---- group syncduty: the environment's alphabet, the abstract state, the phases of a call ---- *)
+
+SyncSlots == 1..3           \* abstract slots of one sync committee period; the clock stands at SyncNow during the overlap
+SyncNow == 2
+SyncMembers == {1, 2, 3}    \* Vouch's validators that are members of the period's sync committee
+Mask3(S) == (IF 1 \in S THEN 1 ELSE 0) + (IF 2 \in S THEN 2 ELSE 0) + (IF 3 \in S THEN 4 ELSE 0)
+
+\* What the environment may present.  acct: the members that have an account in the by-index lookup made when the
+\* duties of the period are scheduled (a member can lose its account between the lookup of all accounts and this
+\* one: an exited validator still in the committee); the others are what each request of a job is answered.
+AcctA == IF WideEnv THEN {{1, 2, 3}, {1, 2}, {3}, {}} ELSE {{1, 2, 3}}
+RootA == IF WideEnv THEN {"ok", "fail"} ELSE {"ok"}                       \* head root request of a message job
+SigA == IF WideEnv THEN {"ok", "zero1", "fail"} ELSE {"ok"}                \* root signer: ok / zero signature for validator 1 / error
+SelA == IF WideEnv THEN {"agg", "noagg", "fail"} ELSE {"agg"}              \* selection signer of a prepare job: aggregators / none / error
+ContribA == IF WideEnv THEN {"ok", "fail"} ELSE {"ok"}                     \* contribution request of an aggregation job
+BlockA == IF WideEnv THEN {"match", "missing", "mismatch", "fail"} ELSE {"match"}   \* fetch of the head block by the verification
+
+\* State: the job table of the period (prepare / message / aggregation jobs by slot), the aggregators each prepare job
+\* found, the slots with a data record, the message jobs a head event has started (spawn: before their record,
+\* spawn2: after it), the slots whose duties a refresh is still scheduling (pend), the generation of each slot's duty.
+SyncInit == [acct |-> {}, prep |-> SyncSlots, msg |-> {}, agg |-> {}, aggs |-> [s \in SyncSlots |-> {}], rec |-> {},
+             spawn |-> {}, spawn2 |-> {}, pend |-> {}, gen |-> [s \in SyncSlots |-> 0]]
+
+Submitted(acct, sig) == IF sig = "fail" THEN {} ELSE IF sig = "zero1" THEN acct \ {1} ELSE acct
+
+\* One linearization point (phase ph) of operation o in state st; res is the result determined so far.  Yields the
+\* possible [st, res, ph]: ph = the next phase, 0 when the call has passed its last point.
+\*   Env(acct)          the accounts the by-index lookup knows (before the controller schedules the period)
+\*   Prep(s, sel)       the timer starts the prepare job of slot s: 1 take the job (res 1; 0 = no such job); 2 the
+\*                      selection proofs are in (sel) and the message job of the slot is scheduled
+\*   Msg(s, root, sig)  the timer starts the message job: 1 take the job (res 0 = no such job); 2 the head root is in
+\*                      (root) and the data of the slot is recorded; 3 the messages are signed (sig) and submitted (res =
+\*                      8 + who), the aggregation job is scheduled if the slot has aggregators and messages went out
+\*   Agg(s, contrib)    the timer starts the aggregation job: res = 8 + the aggregators whose contribution went out
+\*   Head(s, node, block)  head event of the current slot from beacon node `node`: 1 fast track - the message job of
+\*                      the slot, if scheduled, is started on a goroutine of its own; 2 the verification of slot s - 1
+\*                      looks for its data record (res 1: found, the head block is fetched: block)
+\*   Resched            refresh of the period's duties (reorg): 1..3 the jobs of slot 1, 2, 3 are cancelled; 4 the new
+\*                      duties are being scheduled, slot by slot, on goroutines of their own (from the current slot on)
+SyncApply(st, o, ph, res) ==
+    CASE o.op = "Env" -> {[st |-> [st EXCEPT !.acct = o.acct], res |-> 0, ph |-> 0]}
+      [] o.op = "Prep" ->
+            IF ph = 1
+            THEN IF o.s \in st.prep THEN {[st |-> [st EXCEPT !.prep = @ \ {o.s}], res |-> 1, ph |-> 2]}
+                 ELSE {[st |-> st, res |-> 0, ph |-> 0]}
+            ELSE IF o.sel = "fail" /\ st.acct # {} THEN {[st |-> st, res |-> res, ph |-> 0]}     \* no message job
+                 ELSE {[st |-> [st EXCEPT !.msg = @ \cup {o.s},
+                                           !.aggs[o.s] = IF o.sel = "agg" THEN st.acct ELSE {}], res |-> res, ph |-> 0]}
+      [] o.op = "Msg" ->
+            CASE ph = 1 -> IF o.s \in st.msg THEN {[st |-> [st EXCEPT !.msg = @ \ {o.s}], res |-> 8, ph |-> 2]}
+                           ELSE {[st |-> st, res |-> 0, ph |-> 0]}
+              [] ph = 2 -> IF o.root = "fail" THEN {[st |-> st, res |-> res, ph |-> 0]}
+                           ELSE {[st |-> [st EXCEPT !.rec = @ \cup {o.s}], res |-> res, ph |-> 3]}
+              [] OTHER -> LET sub == Submitted(st.acct, o.sig) IN
+                           {[st |-> IF sub # {} /\ st.aggs[o.s] # {} THEN [st EXCEPT !.agg = @ \cup {o.s}] ELSE st,
+                             res |-> 8 + Mask3(sub), ph |-> 0]}
+      [] o.op = "Agg" ->
+            IF o.s \in st.agg
+            THEN {[st |-> [st EXCEPT !.agg = @ \ {o.s}],
+                   res |-> 8 + (IF o.contrib = "ok" THEN Mask3(st.aggs[o.s]) ELSE 0), ph |-> 0]}
+            ELSE {[st |-> st, res |-> 0, ph |-> 0]}
+      [] o.op = "Head" ->
+            IF ph = 1
+            THEN {[st |-> IF o.s \in st.msg THEN [st EXCEPT !.msg = @ \ {o.s}, !.spawn = @ \cup {o.s}] ELSE st,
+                   res |-> res, ph |-> 2]}
+            ELSE {[st |-> st, res |-> IF (o.s - 1) \in st.rec THEN 1 ELSE 0, ph |-> 0]}
+      [] OTHER (* Resched *) ->
+            IF ph <= 3
+            THEN {[st |-> [st EXCEPT !.prep = @ \ {ph}, !.msg = @ \ {ph}, !.agg = @ \ {ph}], res |-> 0, ph |-> ph + 1]}
+            ELSE {[st |-> [st EXCEPT !.pend = {s \in SyncSlots : s >= SyncNow}], res |-> 0, ph |-> 0]}
+
+\* Steps of goroutines that no call of the history is: the message job a head event started records its data (or gets
+\* no head root) and finishes (whatever its signer answers); a scheduling goroutine of a refresh schedules the prepare
+\* job of its slot for a NEW duty (next generation).
+SyncSilent(st) ==
+    {[st EXCEPT !.spawn = @ \ {s}, !.spawn2 = @ \cup {s}, !.rec = @ \cup {s}] : s \in st.spawn}
+    \cup {[st EXCEPT !.spawn = @ \ {s}] : s \in IF "fail" \in RootA THEN st.spawn ELSE {}}
+    \cup {[st EXCEPT !.spawn2 = @ \ {s}] : s \in st.spawn2}
+    \cup {[st EXCEPT !.spawn2 = @ \ {s}, !.agg = @ \cup {s}] : s \in {x \in st.spawn2 : st.aggs[x] # {}}}
+    \cup {[st EXCEPT !.pend = @ \ {s}, !.prep = @ \cup {s}, !.gen[s] = 1] : s \in st.pend}
+
+\* the operations of group syncduty (every parameter ranges over the environment's alphabet)
+SyncOps ==
+    {[op |-> "Env", acct |-> a] : a \in AcctA}
+    \cup {[op |-> "Prep", s |-> s, sel |-> x] : s \in SyncSlots, x \in SelA}
+    \cup {[op |-> "Msg", s |-> s, root |-> r, sig |-> x] : s \in SyncSlots, r \in RootA, x \in SigA}
+    \cup {[op |-> "Agg", s |-> s, contrib |-> c] : s \in SyncSlots, c \in ContribA}
+    \cup {[op |-> "Head", s |-> SyncNow, node |-> n, block |-> b] : n \in 1..2, b \in BlockA}
+    \cup {[op |-> "Resched"]}
+\* ... those that production overlaps while the clock stands at slot SyncNow: head events of two beacon nodes, the
+\* message jobs of the previous slot (late) and of this slot, the prepare job of the next slot, the aggregation job of
+\* the previous slot, a refresh of the period's duties
+SyncParOps ==
+    {o \in SyncOps : \/ o.op \in {"Head", "Resched"}
+                     \/ o.op = "Msg" /\ o.s \in {SyncNow - 1, SyncNow}
+                     \/ o.op = "Prep" /\ o.s = SyncNow + 1
+                     \/ o.op = "Agg" /\ o.s = SyncNow - 1}
+\* two operations that stand for the same job / the same node's event (they differ in what the environment answers)
+SyncKey(o) == <<o.op, IF o.op \in {"Env", "Resched"} THEN 0 ELSE o.s, IF o.op = "Head" THEN o.node ELSE 0>>
+
+\* the history before the overlap: the prepare jobs of slots 1 and 2 have run; the message job of slot 1 has run
+\* (late1 = FALSE) or is late and still to come
+SyncPrologue(a, late1) ==
+    <<[op |-> "Env", acct |-> a], [op |-> "Prep", s |-> 1, sel |-> "agg"], [op |-> "Prep", s |-> 2, sel |-> "agg"]>>
+    \o IF late1 THEN <<>> ELSE <<[op |-> "Msg", s |-> 1, root |-> "ok", sig |-> "ok"]>>
+
+\* the state a sequence of calls made one after the other leaves (their points are deterministic)
+RECURSIVE SyncRunCall(_, _, _, _)
+SyncRunCall(st, o, ph, res) ==
+    IF ph = 0 THEN st
+    ELSE LET a == CHOOSE x \in SyncApply(st, o, ph, res) : TRUE IN SyncRunCall(a.st, o, a.ph, a.res)
+RECURSIVE SyncRun(_, _)
+SyncRun(st, ops) == IF ops = <<>> THEN st ELSE SyncRun(SyncRunCall(st, Head(ops), 1, -9), Tail(ops))
 
 \* abstract state at the start of a history
 SeqInits(g) ==
@@ -92,12 +242,16 @@ SeqInits(g) ==
       \* to the service; pub = a list of public keys has been published on this instance (0: fresh instance)
       [] g = "dirk" -> {[offer |-> o, known |-> k, pub |-> p] : o \in SUBSET {1, 2}, k \in SUBSET {1, 2}, p \in 0..1}
                           \ {[offer |-> o, known |-> k, pub |-> 0] : o \in SUBSET {1, 2}, k \in (SUBSET {1, 2}) \ {{}}}
+      \* the controller has just started: the prepare jobs of the period's slots are scheduled
+      [] g = "syncduty" -> {SyncInit}
 
 \* Start states of the exhaustive runs.  Group dirk: a FRESH instance (nothing published, nothing known) - every
 \* other state of SeqInits is reached by a history of calls (recorded histories may start in any of them: the
 \* drivers keep one instance over many histories).
 StartInits(g) ==
     CASE g = "dirk" -> {[offer |-> o, known |-> {}, pub |-> 0] : o \in SUBSET {1, 2}}
+      \* group syncduty: the states the prologues lead to (the overlaps of interest need prepared jobs and a record)
+      [] g = "syncduty" -> {SyncRun(SyncInit, SyncPrologue(a, l)) : a \in AcctA, l \in BOOLEAN}
       [] OTHER -> SeqInits(g)
 
 \* The part of the instance's history that the RENDERING of a call (its accesses) may depend on.  Everything else
@@ -185,6 +339,13 @@ Apply(g, st, o) ==
                     {[st |-> IF st.offer = {} THEN st ELSE [st EXCEPT !.known = st.offer, !.pub = 1], res |-> 0]}
               [] OTHER (* Query *) -> {[st |-> st, res |-> Mask(st.known)]}
 
+\* One linearization point of a call: the calls of every group but syncduty have ONE (phase 1, then done = 0).
+ApplyPh(gg, s, o, ph, res) ==
+    IF gg = "syncduty" THEN SyncApply(s, o, ph, res)
+    ELSE {[st |-> a.st, res |-> a.res, ph |-> 0] : a \in Apply(gg, s, o)}
+\* the states a step of a goroutine that is no call of the history can lead to
+Silent(gg, s) == IF gg = "syncduty" THEN SyncSilent(s) ELSE {}
+
 \* the sequential prologue of every history of a group (establishes a state worth racing on)
 Prologue(g) ==
     CASE g \in {"blockrelay", "restcfg"} -> <<[op |-> "SourceSet", x |-> 1], [op |-> "Fetch"]>>
@@ -212,6 +373,8 @@ Twists(g) ==
       [] g = "attester" -> {<<>>, <<[op |-> "Attest", v |-> {2}]>>}
       [] g = "bestvotes" -> {<<>>, <<[op |-> "HeadEvent", b |-> 1]>>}
       [] g = "bidstrategy" -> {<<>>, <<[op |-> "Bid", s |-> "best"], [op |-> "Bid", s |-> "deadline"]>>}
+      \* the accounts the by-index lookup knows x the message job of the previous slot has run / is late
+      [] g = "syncduty" -> {SyncPrologue(a, l) : a \in AcctA, l \in BOOLEAN}
       [] OTHER -> {<<>>}
 
 \* the operations production overlaps
@@ -245,6 +408,9 @@ ParOps(g) ==
       \* periodic accounts refresh (wallet 1 / wallet 2 finishing first) || the account queries of every duty job
       [] g = "dirk" -> {[op |-> "Refresh", first |-> 1], [op |-> "Refresh", first |-> 2]}
                        \cup {[op |-> "Query", kind |-> k] : k \in {"by_key", "by_index"}}
+      \* head events of two nodes || message jobs of the previous and the current slot || prepare job of the next slot ||
+      \* aggregation job of the previous slot || refresh of the period's duties, each with every answer of the environment
+      [] g = "syncduty" -> SyncParOps
 
 AllOps(g) == ParOps(g) \cup {Prologue(g)[i] : i \in DOMAIN Prologue(g)}
                        \cup UNION {{t[i] : i \in DOMAIN t} : t \in Twists(g)}
@@ -253,12 +419,14 @@ Count(s, x) == Cardinality({i \in DOMAIN s : s[i] = x})
 
 \* overlap patterns: 1..Width(g) operations in gate-release order, at most two instances of each
 \* (group restcfg has five operations and two environment twists: pairs)
-Width(g) == IF g \in {"restcfg", "dirk"} /\ MaxPar > 2 THEN 2 ELSE MaxPar
+Width(g) == IF g \in {"restcfg", "dirk", "syncduty"} /\ MaxPar > 2 THEN 2 ELSE MaxPar
 Schedules(g) ==
     {s \in UNION {[1..n -> ParOps(g)] : n \in 1..Width(g)} :
         /\ \A x \in ParOps(g) : Count(s, x) <= 2
         \* the accounts refresher is ONE periodic job (rescheduled after it returned): it never overlaps itself
-        /\ g = "dirk" => Cardinality({i \in DOMAIN s : s[i].op = "Refresh"}) <= 1}
+        /\ g = "dirk" => Cardinality({i \in DOMAIN s : s[i].op = "Refresh"}) <= 1
+        \* one job is started once, one node delivers the head event of a slot once
+        /\ g = "syncduty" => \A i, j \in DOMAIN s : i # j => SyncKey(s[i]) # SyncKey(s[j])}
 
 \* How the environment resolves the overlap of a schedule: "free" = the calls start in the generated order and run
 \* as they come; or ONE call is HELD at an interface while the others run, then released:
@@ -282,7 +450,8 @@ Guard ==
             "blockrelay.latestValidatorRegistrations", "util.builders", "cache.executionChainHead",
             "syncaggregator.beaconBlockRoots", "controller.subscriptionInfos", "controller.pendingAttestations",
             "bestproposal.priorBlocksVotes", "builderbid.relayPubkeys",
-            "dirk.accounts", "dirk.pubKeys", "dirk.pubKeys.elements", "dirk.wallets"} |->
+            "dirk.accounts", "dirk.pubKeys", "dirk.pubKeys.elements", "dirk.wallets",
+            "syncduty.messageIndices", "syncduty.accountsByIndex", "syncduty.dutyAccounts", "syncduty.selectionProofs"} |->
         CASE v = "wallet.accounts" -> "wallet.mutex"
           [] v = "blockrelay.executionConfig" -> "blockrelay.executionConfigMu"
           [] v = "v1.sharedProposerConfig" -> "blockrelay.executionConfigMu"
@@ -312,7 +481,14 @@ Guard ==
           [] v = "dirk.accounts" -> "dirk.mutex"
           [] v = "dirk.pubKeys" -> "dirk.mutex"
           [] v = "dirk.pubKeys.elements" -> "dirk.mutex"
-          [] v = "dirk.wallets" -> "dirk.walletsMutex"]
+          [] v = "dirk.wallets" -> "dirk.walletsMutex"
+          \* part (c): objects the controller builds and hands on BY REFERENCE; no lock: never written once handed on
+          \*   messageIndices   validator -> committee positions, one per period: every slot's duty, every data record
+          \*   accountsByIndex  the accounts of the period's by-index lookup: every slot's scheduling goroutine
+          \*   dutyAccounts     a duty's accounts: its prepare and message jobs, then the aggregation job's duty
+          \*   selectionProofs  a duty's aggregator subcommittees: written by its prepare job BEFORE the message job is
+          \*                    scheduled, read by the message job and, through the aggregator's duty, the aggregation job
+          [] OTHER -> "(immutable)"]
 
 Acc(v, k, held) == [var |-> v, kind |-> k, held |-> held]    \* held: set of <<lock, mode>>
 None == {}
@@ -421,13 +597,15 @@ Steps(g, o) ==
             <<Acc("builderbid.relayPubkeys", "R", R("builderbid.relayPubkeysMu")),
               Acc("builderbid.relayPubkeys", "W", W("builderbid.relayPubkeysMu"))>>
       [] g = "dirk" -> DirkSteps(o, FALSE)          \* (the rendering of a call of a history: StepsOf)
+      [] g = "syncduty" -> <<>>                     \* no lock to render: part (c), Touch
 
 -----------------------------------------------------------------------------
 VARIABLES g,        \* the group of the current history
           st,       \* abstract state
           calls,    \* id -> [op, status: "pending" | "done" | "returned", res, pc: next access, in: access in progress,
-                    \*        carry: Carried(g, st) at the invocation]
-          lin       \* ids in linearization order (history variable)
+                    \*        carry: Carried(g, st) at the invocation, ph: the next linearization point of the call,
+                    \*        gen: (syncduty) the generation of the duty whose job the call took]
+          lin       \* the linearization points passed, in order: <<id, phase>> (history variable)
 
 vars == <<g, st, calls, lin>>
 
@@ -453,8 +631,10 @@ Invoke(i, o) ==
     \* the accounts refresher is one periodic job: a refresh is only started when the previous one has returned
     /\ (g = "dirk" /\ o.op = "Refresh") =>
             \A j \in DOMAIN calls : calls[j].op.op = "Refresh" => calls[j].status = "returned"
+    \* a refresh of the period's duties is started by a change of the dependent root: one per history
+    /\ (g = "syncduty" /\ o.op = "Resched") => \A j \in DOMAIN calls : calls[j].op.op # "Resched"
     /\ calls' = Put(calls, i, [op |-> o, status |-> "pending", res |-> NoRes, pc |-> 1, in |-> FALSE,
-                                carry |-> Carried(g, st)])
+                                carry |-> Carried(g, st), ph |-> 1, gen |-> 0])
     /\ UNCHANGED <<g, st, lin>>
 
 \* A job-round may only skip its run (result 0) while another job-round is in progress (activity semaphore).
@@ -462,15 +642,25 @@ Allowed(i, a) ==
     (g = "registrar" /\ calls[i].op.op = "RoundJob" /\ a.res = 0)
         => \E j \in DOMAIN calls : j # i /\ calls[j].op.op = "RoundJob" /\ calls[j].status # "returned"
 
-\* the linearization point: the effect takes place and the result is determined
+\* a linearization point (the only one, for every group but syncduty): the effect takes place, the result is determined
 Linearize(i) ==
     /\ i \in DOMAIN calls /\ calls[i].status = "pending"
-    /\ \E a \in Apply(g, st, calls[i].op) :
+    /\ \E a \in ApplyPh(g, st, calls[i].op, calls[i].ph, calls[i].res) :
           /\ Allowed(i, a)
           /\ st' = a.st
-          /\ calls' = [calls EXCEPT ![i].status = "done", ![i].res = a.res]
-    /\ lin' = Append(lin, i)
+          /\ calls' = [calls EXCEPT ![i].status = IF a.ph = 0 THEN "done" ELSE "pending", ![i].res = a.res, ![i].ph = a.ph,
+                                    \* the duty whose job the call takes (first point of a job of group syncduty)
+                                    ![i].gen = IF g = "syncduty" /\ calls[i].ph = 1 /\ calls[i].op.op \in {"Prep", "Msg", "Agg"}
+                                               THEN st.gen[calls[i].op.s] ELSE @]
+    \* (the history variable is kept for the groups whose calls have one point: a call of group syncduty passes
+    \* several, its result is compared point by point where it is determined - Linearize, TraceRet)
+    /\ lin' = IF g = "syncduty" THEN lin ELSE Append(lin, <<i, calls[i].ph>>)
     /\ UNCHANGED g
+
+\* a step of a goroutine that is no call of the history (group syncduty)
+SilentStep ==
+    /\ \E s2 \in Silent(g, st) : st' = s2
+    /\ UNCHANGED <<g, calls, lin>>
 
 \* an access to a shared variable begins: the locks it holds must be free in the Go sense
 BeginAccess(i) ==
@@ -491,9 +681,26 @@ Return(i) ==
     /\ calls' = [calls EXCEPT ![i].status = "returned"]
     /\ UNCHANGED <<g, st, lin>>
 
+\* Exhaustive runs of group syncduty.  A call does nothing before its first point, so every state of (abstract
+\* state, progress of the calls) is reached with all calls invoked before any point is passed; and calls invoked
+\* together are interchangeable: they are invoked in the order of OpCode (symmetry reduction).  (Recorded histories
+\* are not restricted: the trace specification uses Invoke.)
+OpCode(o) ==
+    LET ix(x, seq) == CHOOSE n \in DOMAIN seq : seq[n] = x IN
+    CASE o.op = "Env" -> 0
+      [] o.op = "Prep" -> 100 + 10 * o.s + ix(o.sel, <<"agg", "noagg", "fail">>)
+      [] o.op = "Msg" -> 200 + 10 * o.s + 3 * ix(o.root, <<"ok", "fail">>) + ix(o.sig, <<"ok", "zero1", "fail">>)
+      [] o.op = "Agg" -> 300 + 10 * o.s + ix(o.contrib, <<"ok", "fail">>)
+      [] o.op = "Head" -> 400 + 10 * o.node + ix(o.block, <<"match", "missing", "mismatch", "fail">>)
+      [] OTHER -> 500
+InvokeFirst(o) ==
+    g = "syncduty" =>
+        /\ \A i \in DOMAIN calls : calls[i].ph = 1 /\ calls[i].status = "pending" /\ OpCode(calls[i].op) <= OpCode(o)
+
 Next ==
-    \/ \E o \in AllOps(g) : Invoke(Cardinality(DOMAIN calls) + 1, o)      \* ids in invocation order (symmetry)
+    \/ \E o \in AllOps(g) : InvokeFirst(o) /\ Invoke(Cardinality(DOMAIN calls) + 1, o)      \* ids in invocation order (symmetry)
     \/ \E i \in Ids : Linearize(i) \/ BeginAccess(i) \/ EndAccess(i) \/ Return(i)
+    \/ SilentStep
 
 Spec == Init /\ [][Next]_vars
 
@@ -503,13 +710,14 @@ TypeOK ==
     /\ DOMAIN calls \subseteq Ids
     /\ \A i \in DOMAIN calls : calls[i].status \in {"pending", "done", "returned"}
 
-\* C17 (a): the results handed out are those of the sequential execution in linearization order
+\* C17 (a): the results handed out are those of the sequential execution of the points in linearization order
 RECURSIVE Replay(_, _, _)
-Replay(s, k, ok) ==          \* is there a sequential run of lin[k..] from s that yields the recorded results?
-    IF k > Len(lin) THEN ok /\ s = st
-    ELSE \E a \in Apply(g, s, calls[lin[k]].op) : a.res = calls[lin[k]].res /\ Replay(a.st, k + 1, ok)
+Replay(s, k, p) ==           \* is there a sequential run of lin[k..] from s that yields the recorded results?  p: id -> result so far
+    IF k > Len(lin) THEN s = st /\ \A i \in DOMAIN calls : calls[i].res = p[i]
+    ELSE LET e == lin[k] IN
+         \E a \in ApplyPh(g, s, calls[e[1]].op, e[2], p[e[1]]) : Replay(a.st, k + 1, [p EXCEPT ![e[1]] = a.res])
 
-Linearizable == \E s0 \in SeqInits(g) : Replay(s0, 1, TRUE)
+Linearizable == g # "syncduty" => \E s0 \in SeqInits(g) : Replay(s0, 1, [i \in DOMAIN calls |-> NoRes])
 
 \* C17 (b): two overlapping accesses to a variable, one of them a write, both hold its guard
 HoldsGuard(a) ==
@@ -521,8 +729,66 @@ Disciplined ==
         (i # j /\ AccessOf(i).var = AccessOf(j).var /\ (AccessOf(i).kind = "W" \/ AccessOf(j).kind = "W"))
             => (HoldsGuard(AccessOf(i)) /\ HoldsGuard(AccessOf(j)))
 
+\* C17 (c): aliasing.  An object: [name (key of Guard), s (the slot of the duty it belongs to; 0: the period's), gen].
+Obj(n, s, k) == [name |-> n, s |-> s, gen |-> k]
+IdxObj(s, k) == Obj("syncduty.messageIndices", IF Share = "period" THEN 0 ELSE s, k)    \* the map the duty of slot s holds
+SomeAccountless == st.acct # SyncMembers
+Tch(o, k) == [var |-> o, kind |-> k]
+\* what a message job touches between taking the job and recording the data of its slot (1), and from there to its
+\* end (2): the duty's map (len, and - class message-indices - the members without an account are deleted from it
+\* BEFORE the map goes into the record), then the duty's accounts and selection proofs
+MsgTouch(s, k, w) ==
+    IF w = 1 THEN {Tch(IdxObj(s, k), "R")}
+                  \cup (IF AliasWrite = "message-indices" /\ SomeAccountless THEN {Tch(IdxObj(s, k), "W")} ELSE {})
+    ELSE {Tch(Obj("syncduty.dutyAccounts", s, k), "R"), Tch(Obj("syncduty.selectionProofs", s, k), "R")}
+\* the objects call i touches in its present state: nothing before it has taken its job / after it found none
+CallTouch(i) ==
+    LET o == calls[i].op  k == calls[i].gen  ph == calls[i].ph IN
+    IF calls[i].status = "returned" \/ calls[i].res = 0 \/ calls[i].res = NoRes THEN {}
+    ELSE CASE o.op = "Prep" /\ ph = 2 ->
+                  {Tch(IdxObj(o.s, k), "R"), Tch(Obj("syncduty.dutyAccounts", o.s, k), "R"),
+                   Tch(Obj("syncduty.selectionProofs", o.s, k), "W")}
+                  \cup (IF AliasWrite = "prepare-indices" /\ SomeAccountless THEN {Tch(IdxObj(o.s, k), "W")} ELSE {})
+           [] o.op = "Msg" /\ ph \in {2, 3} -> MsgTouch(o.s, k, ph - 1)
+           [] o.op = "Agg" /\ ph = 0 ->
+                  {Tch(Obj("syncduty.dutyAccounts", o.s, k), "R"), Tch(Obj("syncduty.selectionProofs", o.s, k), "R")}
+           \* the verification ranges over the map in the data record of the previous slot (never rescheduled: gen 0)
+           [] o.op = "Head" /\ ph = 0 /\ calls[i].res = 1 ->
+                  {Tch(IdxObj(o.s - 1, 0), "R")}
+                  \cup (IF AliasWrite = "verify-indices" /\ o.block \in {"missing", "mismatch"} THEN {Tch(IdxObj(o.s - 1, 0), "W")} ELSE {})
+           [] OTHER -> {}
+\* Units under way: the calls, the message jobs a head event started, the scheduling goroutines of a refresh (each
+\* reads the period's accounts map for the duty of its slot)
+Units == {<<"call", i>> : i \in DOMAIN calls} \cup {<<"spawn", s>> : s \in st.spawn} \cup {<<"spawn2", s>> : s \in st.spawn2}
+         \cup {<<"sched", s>> : s \in st.pend}
+Touch(u) ==
+    CASE u[1] = "call" -> CallTouch(u[2])
+      [] u[1] = "spawn" -> MsgTouch(u[2], st.gen[u[2]], 1)
+      [] u[1] = "spawn2" -> MsgTouch(u[2], st.gen[u[2]], 2)
+      [] OTHER -> {Tch(Obj("syncduty.accountsByIndex", 0, 1), "R")}
+                  \cup (IF AliasWrite = "schedule-accounts" /\ SomeAccountless THEN {Tch(Obj("syncduty.accountsByIndex", 0, 1), "W")} ELSE {})
+\* "shared => never written after publication": no object is touched by two units under way when one of them writes
+\* it (none of these objects has a lock: Guard[name] = "(immutable)")
+SharedImmutable ==
+    g = "syncduty" =>
+        \A u, v \in Units : u # v =>
+            \A a \in Touch(u), b \in Touch(v) :
+                (a.var = b.var /\ (a.kind = "W" \/ b.kind = "W")) => Guard[a.var.name] # "(immutable)"
+
 \* state constraint of the exhaustive runs: one schedule = the prologue is skipped, <= MaxPar calls
 Bounded == Cardinality(DOMAIN calls) <= MaxPar
+
+\* state constraint of the self-checks of the aliasing model (group syncduty): every choice of accounts, every overlap,
+\* the requests answered (a sub-space: enough to hold each violation, and fast) - but for the head block, which may
+\* miss members (the edge input of class verify-indices)
+AliasProbe ==
+    /\ Bounded
+    /\ \A i \in DOMAIN calls :
+          LET o == calls[i].op IN
+          /\ o.op = "Msg" => o.root = "ok" /\ o.sig = "ok"
+          /\ o.op = "Prep" => o.sel = "agg"
+          /\ o.op = "Agg" => o.contrib = "ok"
+          /\ o.op = "Head" => o.block \in {"match", "missing"}
 
 \* state constraint of the self-checks of the Reuse rendering (group dirk): histories of refreshes and queries on one
 \* instance while Dirk's list stays as it is (a sub-space: enough to hold a violation, and fast)
